@@ -34,6 +34,11 @@ void vrt_set_resolver(bool (*fn)(const void* addr, char* out, size_t cap));
 // VRT_MEM=view (environment): loads may return stale values allowed by the release/acquire view
 // model (see vrt.cpp); number of stale reads served in the last section:
 uint64_t vrt_stale_reads();
+// directed scheduling (default: none): at every scheduling point `fn(cur_tid, runnable_tids, n,
+// must_switch)` may return the index (0..n-1) of the runnable thread to run next, or -1 to let the
+// seeded strategy choose; cur_tid is the calling thread (it may be blocked, then it is not in the
+// list).  Cleared by passing nullptr.  Used to build one specific interleaving (C14 version wrap).
+void vrt_set_picker(int (*fn)(int cur_tid, const int* runnable_tids, int n, int must_switch));
 // harness-level event attributed to the calling thread (printf style)
 void vrt_event(const char* fmt, ...);
 // start / stop the controlled section (call from the main thread; all threads created inside
